@@ -53,6 +53,12 @@ Theorem C12_regional_maximum_any_structure : forall s, noninterfering (prog_regi
 Proof. exact (fun s => accepts_sound (prog_regional_maximum_struct s) (regional_maximum_struct_ok s)). Qed.
 Print Assumptions C12_regional_maximum_any_structure.
 
+(* integer 0/1 masks: the listed functions that look only at the mask's truthiness (all but the 23 of known finding F24)
+   are non-interfering also when the mask is read as an integer array (x[mask] = fancy indexing, ~mask = bitwise) *)
+Theorem C12_integer_masks_handled : Forall noninterfering intmask_handled_progs.
+Proof. exact (all_accepted_noninterfering intmask_handled_progs intmask_handled_accepted). Qed.
+Print Assumptions C12_integer_masks_handled.
+
 (* the generated lists cover the 40 functions the property names plus the 2 it implies (masked_convolution,
    branchings) / all 15 binary ones *)
 Theorem C12_lists_complete : (length listed_progs, length binary_progs) = (42, 15)%nat.
